@@ -18,13 +18,28 @@
    Model/CuidConc.v cuts it; lastMutex.Lock(), the deferred Unlock() and
    now := time.Now() are skipped (their position is Properties/C19K.v's pin);
    now.Unix() : int64 and now.Nanosecond() : int are the parameters unix, nanos.
-   Domains: unix - every Z (so every int64); nanos - every Z.of_N nsec
-   (Nanosecond() is in [0, 999999999]; a negative int has no counterpart);
-   lastTime, lastCounter - every N (so every uint64); the MAC address - every
-   list of numbers (so every [6]byte); gen_bits - a timestamp below 2^40 and a
-   hash below 2^16, which is what gen_timestamp and gen_machash return
-   (C19F_ranges). A zero divisor or an index out of range, on which Go panics
-   and the translation yields 0, does not occur (C19F_ranges). *)
+   Domains of the theorems: unix - every Z (so every int64); nanos - the
+   NON-NEGATIVE ints only: the theorems take nanos = Z.of_N nsec for an
+   arbitrary N (now.Nanosecond() is in [0, 999999999]). The translation itself
+   accepts a negative nanos (sconv, two's complement); no theorem here says
+   what it computes there. lastTime, lastCounter - every N (so every uint64);
+   the MAC address - every list of numbers (so every [6]byte); gen_bits - a
+   timestamp below 2^40 and a hash below 2^16, which is what gen_timestamp and
+   gen_machash return (C19F_ranges). A zero divisor or an index out of range,
+   on which Go panics and the translation yields 0, does not occur
+   (C19F_ranges).
+
+   What is NOT translated: of RandomID only the index expression of
+   chars[...] (gen_random_index) and its alphabet; the loop around it - that it
+   reads one byte per symbol, writes from the back and returns exactly `length`
+   characters - and generateSessionID are Model/Ids.v's transcription (the C19_rid_ and
+   C19_session_id_ theorems), tied to the source by constants and the differential
+   runs only. Of CUID: everything but the three skipped statements. The
+   translator (translator/ids_fn.go) is trusted code: it rejects shadowing
+   declarations, assignments to a range variable, string(b) for a byte not
+   taken from an all-ASCII literal, and requires each skipped statement
+   exactly once; generated names contain an apostrophe, which no Go identifier
+   can. *)
 From Sessions Require Import Model.Base Gen.IdsFn Proofs.IdsFnEquiv.
 Local Open Scope N_scope.
 
